@@ -8,7 +8,7 @@ use crate::model::Ins;
 use crate::obs::{self, fmt_obs, slot_of};
 use crate::ops::{self, guarded, Outcome};
 use crate::payload::Payload;
-use crate::step::{Failure, Props, C01, C02, C10};
+use crate::step::{Failure, Props, C01, C02, C05, C07, C10};
 use indextree::{Arena, NodeId};
 use rayon::prelude::*;
 use std::collections::HashSet;
@@ -57,6 +57,8 @@ pub struct FState {
     pub allocs: usize,
     /// destructor-bomb operations enabled (C01 only)
     pub bombs: bool,
+    /// serde round trip in the alphabet (off where builds without `deser` must agree: C17)
+    pub round_trip: bool,
 }
 
 fn key(s: &FState) -> u128 {
@@ -104,7 +106,7 @@ fn enabled(s: &FState, n_max: usize, a_max: usize) -> Vec<FOp> {
             }
         }
     }
-    if cfg!(feature = "it-deser") {
+    if cfg!(feature = "it-deser") && s.round_trip {
         v.push(FOp::RoundTrip);
     }
     v
@@ -189,6 +191,39 @@ pub struct FreeReport {
     pub violations: Vec<(Failure, Vec<String>)>,
     pub sample: Vec<String>,
     pub wall_s: f64,
+    /// configuration-independent digest of the set of states reached (Debug renderings + ids)
+    pub digest: u64,
+}
+
+/// C07, model-free, per allocation: the call returns, the slot it hands out held no node the arena
+/// reported live, and the new node does not report itself removed.
+fn alloc_judge(s: &FState, op: FOp, n: &FState, out: &Outcome) -> Vec<Failure> {
+    let mut v = Vec::new();
+    if !matches!(op, FOp::New | FOp::AppendValue(_)) {
+        return v;
+    }
+    let mut push = |kind: &str, detail: String| {
+        v.push(Failure {
+            props: C07 | if kind == "allocation-panicked" { C05 } else { 0 },
+            judge: "allocation",
+            shaping: false,
+            sig: format!("allocation|{}|free|{kind}", if matches!(op, FOp::New) { "new_node" } else { "append_value" }),
+            detail,
+        });
+    };
+    match out {
+        Outcome::Panic(m) => push("allocation-panicked", format!("{} panicked: {m}; arena before: {:?}", op.text(), s.arena)),
+        Outcome::Id(id) => {
+            let x = slot_of(*id);
+            if x < s.arena.count() && live_by_flag(s, x) {
+                push("occupied-slot-handed-out", format!("{} returned {} although slot {} held a node the arena reported live; arena before: {:?}", op.text(), obs::fmt_id(Some(*id)), x + 1, s.arena));
+            } else if !live_by_flag(n, x) {
+                push("new-node-reports-removed", format!("the node {} just created by {} reports is_removed(); arena before: {:?}", obs::fmt_id(Some(*id)), op.text(), s.arena));
+            }
+        }
+        _ => {}
+    }
+    v
 }
 
 /// Judges that need no model: J01 (C01), J02 + finite repeat-free iterators from every node the
@@ -268,13 +303,13 @@ pub fn explore(n_max: usize, a_max: usize, target: Props, threads: usize, deadli
     let t0 = Instant::now();
     let pool = rayon::ThreadPoolBuilder::new().num_threads(threads.max(1)).build().unwrap();
     // destructor bombs only where the judge is about links alone (C01)
-    let init = FState { arena: Arena::new(), cur: Vec::new(), allocs: 0, bombs };
+    let init = FState { arena: Arena::new(), cur: Vec::new(), allocs: 0, bombs, round_trip: target & crate::step::C17 == 0 };
     let mut seen: HashSet<u128> = HashSet::new();
     seen.insert(key(&init));
     // (parent index, op) per state for path reconstruction
     let mut recs: Vec<(u32, Option<FOp>)> = vec![(u32::MAX, None)];
     let mut frontier: Vec<(u32, FState)> = vec![(0, init)];
-    let mut rep = FreeReport { states: 1, transitions: 0, levels: 0, exhaustive: false, cap_hit: None, violations: Vec::new(), sample: Vec::new(), wall_s: 0.0 };
+    let mut rep = FreeReport { states: 1, transitions: 0, levels: 0, exhaustive: false, cap_hit: None, violations: Vec::new(), sample: Vec::new(), wall_s: 0.0, digest: 0 };
     let path_of = |recs: &Vec<(u32, Option<FOp>)>, mut i: u32| -> Vec<String> {
         let mut v = Vec::new();
         while let (p, Some(op)) = recs[i as usize] {
@@ -315,15 +350,20 @@ pub fn explore(n_max: usize, a_max: usize, target: Props, threads: usize, deadli
                                     note: Some(op.text()),
                                 });
                             }
-                            let (n, _out) = apply(s, op);
+                            let (n, out) = apply(s, op);
+                            let tfails = if target & C07 != 0 { alloc_judge(s, op, &n, &out) } else { Vec::new() };
                             {
                                 let slot = rayon::current_thread_index().map(|i| i + 1).unwrap_or(0).min(129);
                                 *crate::explore::watch_slots()[slot].lock().unwrap() = None;
                             }
                             let k = key(&n);
                             if !seen_ref.contains(&k) && local.insert(k) {
-                                let (fails, sound) = judge(&n, target);
+                                let (mut fails, sound) = judge(&n, target);
+                                fails.extend(tfails);
                                 cands.push((*idx, op, n, k, fails, sound));
+                            } else if !tfails.is_empty() {
+                                // (a failing allocation into a state already known: report it all the same)
+                                cands.push((*idx, op, n, k ^ 1, tfails, false));
                             }
                         }
                     }
@@ -367,13 +407,16 @@ pub fn explore(n_max: usize, a_max: usize, target: Props, threads: usize, deadli
         rep.exhaustive = true;
     }
     rep.wall_s = t0.elapsed().as_secs_f64();
+    let mut keys: Vec<u128> = seen.into_iter().collect();
+    keys.sort_unstable();
+    rep.digest = obs::hash64(&(keys, rep.transitions));
     rep
 }
 
 /// C10 as a model-free law: for every node the arena reports live, the three double-ended
 /// iterators pulled in any front/back pattern yield the elements of their own forward sequence,
 /// front pulls in forward order, back pulls in backward order, each exactly once, then `None`.
-fn c10_law(arena: &Arena<Payload>, obs: &[obs::SlotObs]) -> Vec<Failure> {
+pub fn c10_law(arena: &Arena<Payload>, obs: &[obs::SlotObs]) -> Vec<Failure> {
     let mut out = Vec::new();
     let n = obs.len();
     for (x, o) in obs.iter().enumerate() {
